@@ -17,6 +17,7 @@
 #include <memory>
 #include <new>
 
+#include "cctz/time_zone.h"
 #include "cctz/zone_info_source.h"
 #include "simsched.h"
 
@@ -27,6 +28,7 @@ FactoryState fac;
 FsState fs;
 EnvState env;
 
+extern "C" pthread_t __real_pthread_self(void);
 static pthread_t g_sim_thread;
 static std::atomic<int> g_wrong_thread_calls{0};
 int wrong_thread_calls() { return g_wrong_thread_calls.load(); }
@@ -69,7 +71,7 @@ static void on_terminate() {
 }
 
 void install_crash_handlers() {
-  g_sim_thread = pthread_self();
+  g_sim_thread = __real_pthread_self();
   struct sigaction sa;
   memset(&sa, 0, sizeof sa);
   sa.sa_handler = on_alarm;
@@ -148,6 +150,8 @@ void factory_reset(std::map<std::string, CatEntry>* cat, int ntasks) {
   fac.task_op.assign(static_cast<size_t>(std::max(ntasks, 0)), "");
   fac.wildcard_prefix.clear();
   fac.wildcard_entry = CatEntry();
+  fac.reenter = 0;
+  fac.reenter_name.clear();
 }
 
 namespace {
@@ -215,7 +219,7 @@ std::unique_ptr<cctz::ZoneInfoSource> SimFactory(
     const std::function<std::unique_ptr<cctz::ZoneInfoSource>(const std::string& name)>& fallback) {
   if (fac.catalogue == nullptr) return fallback(name);  // pass-through mode: built-in file source over SimFS
   HarnessScope hs;
-  if (!pthread_equal(pthread_self(), g_sim_thread)) {
+  if (!pthread_equal(__real_pthread_self(), g_sim_thread)) {
     // Invoked on a thread the simulator does not own (invariant 1 of C20):
     // count it and touch nothing else.
     g_wrong_thread_calls.fetch_add(1);
@@ -234,6 +238,33 @@ std::unique_ptr<cctz::ZoneInfoSource> SimFactory(
   }
   sim::yield(Y_FACTORY_IN);
   for (int i = 0; i < fac.factory_yields; ++i) sim::yield(Y_FACTORY_MID);
+  static std::vector<int> nesting;   // per task: are we already inside a call the factory made itself?
+  if (nesting.size() < 80) nesting.assign(80, 0);
+  if (fac.reenter && in_task() && cur_task() < 80 && nesting[static_cast<size_t>(cur_task())] == 0 && name != fac.reenter_name &&
+      !(fac.reenter == 3 && name == "/etc/localtime")) {   // (a factory that asks for the very name it is serving is its own problem)
+    // A factory is ordinary user code: it may use cctz itself (log a timestamp, resolve an alias, ...).
+    const int t = cur_task();
+    struct Depth { int& d; explicit Depth(int& x) : d(x) { ++d; } ~Depth() { --d; } } depth(nesting[static_cast<size_t>(t)]);
+    const std::string saved = (t >= 0 && static_cast<size_t>(t) < fac.task_op.size()) ? fac.task_op[static_cast<size_t>(t)] : std::string();
+    LibraryScope ls;
+    switch (fac.reenter) {
+      case 1: (void)cctz::fixed_time_zone(cctz::seconds(3600 * (1 + static_cast<int>(idx % 5)))); break;
+      case 2: {
+        if (t >= 0 && static_cast<size_t>(t) < fac.task_op.size()) fac.task_op[static_cast<size_t>(t)] = fac.reenter_name;
+        cctz::time_zone nested;
+        cctz::load_time_zone(fac.reenter_name, &nested);
+        if (t >= 0 && static_cast<size_t>(t) < fac.task_op.size()) fac.task_op[static_cast<size_t>(t)] = saved;
+        break;
+      }
+      case 3: {
+        if (t >= 0 && static_cast<size_t>(t) < fac.task_op.size()) fac.task_op[static_cast<size_t>(t)] = "/etc/localtime";
+        (void)cctz::local_time_zone();
+        if (t >= 0 && static_cast<size_t>(t) < fac.task_op.size()) fac.task_op[static_cast<size_t>(t)] = saved;
+        break;
+      }
+      default: (void)cctz::format("%Y-%m-%d %H:%M:%S %Ez", std::chrono::system_clock::from_time_t(1700000000), cctz::utc_time_zone()); break;
+    }
+  }
   std::unique_ptr<cctz::ZoneInfoSource> src;
   auto it = fac.catalogue->find(name);
   if (it != fac.catalogue->end()) {
